@@ -115,6 +115,10 @@ class ProtocolHandler:
         self, message: JSONRPCMessage, session_id: Optional[str]
     ):
         """Handle initialized notification."""
+        msg_id = getattr(message, "id", None)
+        if msg_id is not None:
+            # Sent with an id it is a request, and every request gets a response
+            return self.create_response(msg_id, {}), None
         return None, None  # Notifications don't return responses
 
     async def _handle_ping(self, message: JSONRPCMessage, session_id: Optional[str]):
